@@ -62,6 +62,26 @@ type fileDef struct {
 type Content struct {
 	Name  string    `json:"name"`
 	Files []fileDef `json:"-"`
+	// DirOrder: the configured directory list (default d0, d1); a directory listed twice takes the
+	// priority of its last position
+	DirOrder []string `json:"directory_list,omitempty"`
+}
+
+func (c Content) order() []string {
+	if len(c.DirOrder) > 0 {
+		return c.DirOrder
+	}
+	return []string{"d0", "d1"}
+}
+
+func (c Content) prio(dir string) int {
+	p := -1
+	for i, d := range c.order() {
+		if d == dir {
+			p = i
+		}
+	}
+	return p
 }
 
 type Case struct {
@@ -83,6 +103,13 @@ func contents(thorough bool) []Content {
 			{"d0", "f0.json", K1, []string{"a", "d"}, mask&1 != 0},
 		}
 		out = append(out, c)
+		if mask == 5 || mask == 7 {
+			// the low directory listed once more at the end: now it shadows the other one
+			r := c
+			r.Name += "+dirs=d0,d1,d0"
+			r.DirOrder = []string{"d0", "d1", "d0"}
+			out = append(out, r)
+		}
 		if thorough {
 			c2 := Content{Name: c.Name + "+F3"}
 			c2.Files = append(append([]fileDef{}, c.Files...), fileDef{"d1", "f3.yaml", K1, []string{"e"}, mask&4 == 0},
@@ -100,7 +127,7 @@ func resolve(c Content, q string) *fileDef {
 		f := &c.Files[i]
 		for _, d := range f.devs {
 			if f.kind+"="+d == q {
-				if best == nil || f.dir > best.dir {
+				if best == nil || c.prio(f.dir) > c.prio(best.dir) {
 					best = f
 				}
 			}
@@ -338,21 +365,25 @@ func main() {
 			fmt.Println("INFRA:", err)
 			os.Exit(2)
 		}
-		cache, _ := cdi.NewCache(cdi.WithSpecDirs(filepath.Join(dir, "d0"), filepath.Join(dir, "d1")), cdi.WithAutoRefresh(false))
+		var dirList []string
+		for _, d := range c.order() {
+			dirList = append(dirList, filepath.Join(dir, d))
+		}
+		cache, _ := cdi.NewCache(cdi.WithSpecDirs(dirList...), cdi.WithAutoRefresh(false))
 		if errs := cache.GetErrors(); len(errs) != 0 {
 			fmt.Println("INFRA: generated Spec files do not load:", errs)
 			os.RemoveAll(root)
 			os.Exit(2)
 		}
 		v.caches = append(v.caches, cache)
-		v.dirs = append(v.dirs, []string{filepath.Join(dir, "d0"), filepath.Join(dir, "d1")})
+		v.dirs = append(v.dirs, dirList)
 		// still single-threaded here: no descriptor can be opened while this cache is created
 		var lim, zero syscall.Rlimit
 		_ = syscall.Getrlimit(syscall.RLIMIT_NOFILE, &lim)
 		zero = lim
 		zero.Cur = 0
 		_ = syscall.Setrlimit(syscall.RLIMIT_NOFILE, &zero)
-		dc, _ := cdi.NewCache(cdi.WithSpecDirs(filepath.Join(dir, "d0"), filepath.Join(dir, "d1")), cdi.WithAutoRefresh(true))
+		dc, _ := cdi.NewCache(cdi.WithSpecDirs(dirList...), cdi.WithAutoRefresh(true))
 		_ = syscall.Setrlimit(syscall.RLIMIT_NOFILE, &lim)
 		v.degraded = append(v.degraded, dc)
 	}
